@@ -164,6 +164,13 @@ Theorem C10_approx_gaussian_instances : AG_all.
 Proof. exact AG_all_ok. Qed.
 Print Assumptions C10_approx_gaussian_instances.
 
+(* ... but not for every tol: for tol = 0.0187 a segment of the ranges the
+   implementation returns deviates by more than 1.04 tol (finding
+   C10:approx-gaussian-exceeds-tol; the node placement uses an estimate) *)
+Theorem C10_approx_gaussian_tol_refuted : AG_refuted.
+Proof. exact AG_refuted_ok. Qed.
+Print Assumptions C10_approx_gaussian_tol_refuted.
+
 Theorem C10_approx_gaussian_tail : forall xN x, 0 <= xN <= Rabs x ->
   exp (- (x * x) / 2) <= exp (- (xN * xN) / 2).
 Proof. exact gauss_tail. Qed.
